@@ -518,64 +518,86 @@ def _bare_use(t: ast.AST, S: str) -> bool:
     return any(isinstance(x, ast.Name) and x.id == S and id(x) not in attr_bases for x in ast.walk(t))
 
 
-def _dep_site(ctx: Ctx, m: pf.Module, qual: str) -> str:
-    fn = m.func(qual)
-    g = pf.cfg(fn)
-    where = f'{FJ}::{qual}'
-    srcs = [st for st in _stmts(fn) if isinstance(st, ast.Assign) and len(st.targets) == 1 and isinstance(st.targets[0], ast.Name)
-            and isinstance(st.value, ast.Call) and isinstance(st.value.func, ast.Attribute) and st.value.func.attr == 'source' and not st.value.args]
-    ctx.need(len(srcs) == 1, f'{where}: expected one `<s> = <r>.source()`')
-    S = srcs[0].targets[0].id  # type: ignore[attr-defined]
-    ctx.need(len(pf.assignments(fn).get(S, [])) == 1, f'{where}: `{S}` is reassigned')
-    SRC = _node(g, srcs[0], 'source assignment')
+class RecordingSite:
+    """One of the two places where a job records the resources it mentions:  `<S> = <R>.source()` followed by tests on S.
+    (Also used by rules/c18.py.)"""
 
-    tests: Dict[int, Tuple[str, str]] = {}
-    for n in g.nodes:
-        if n.kind == 'test' and n.ast is not None and _bare_use(n.ast, S):
-            c = _classify(n.ast, S)
-            ctx.need(c is not None, f'{where}: test `{pf.nsrc(n.ast)}` on the producing job not recognised')
-            tests[n.id] = c  # type: ignore[assignment]
+    def __init__(self, ctx: Ctx, m: pf.Module, qual: str):
+        self.m = m
+        self.qual = qual
+        self.fn = fn = m.func(qual)
+        self.g = g = pf.cfg(fn)
+        self.where = where = f'{m.rel}::{qual}'
+        srcs = [st for st in _stmts(fn) if isinstance(st, ast.Assign) and len(st.targets) == 1 and isinstance(st.targets[0], ast.Name)
+                and isinstance(st.value, ast.Call) and isinstance(st.value.func, ast.Attribute) and st.value.func.attr == 'source' and not st.value.args
+                and isinstance(st.value.func.value, ast.Name)]
+        ctx.need(len(srcs) == 1, f'{where}: expected one `<s> = <r>.source()`')
+        self.src_stmt = srcs[0]
+        self.S = S = srcs[0].targets[0].id  # type: ignore[attr-defined]
+        self.R = srcs[0].value.func.value.id  # type: ignore[attr-defined]
+        ctx.need(len(pf.assignments(fn).get(S, [])) == 1, f'{where}: `{S}` is reassigned')
+        self.SRC = _node(g, srcs[0], 'source assignment')
+        self.tests: Dict[int, Tuple[str, str]] = {}
+        for n in g.nodes:
+            if n.kind == 'test' and n.ast is not None and _bare_use(n.ast, S):
+                c = _classify(n.ast, S)
+                ctx.need(c is not None, f'{where}: test `{pf.nsrc(n.ast)}` on the producing job not recognised')
+                self.tests[n.id] = c  # type: ignore[assignment]
 
-    def is_add(n: pf.Node) -> bool:
-        for c in pf.node_calls(n):
-            if isinstance(c.func, ast.Attribute) and c.func.attr == 'add' and _is_attr(c.func.value, 'self', DEPS) \
-                    and len(c.args) == 1 and isinstance(c.args[0], ast.Name) and c.args[0].id == S:
-                return True
-        return False
-
-    def under(val: Dict[str, bool]) -> Callable[[pf.Node, pf.Node, str], bool]:
+    def under(self, val: Dict[str, bool]) -> Callable[[pf.Node, pf.Node, str], bool]:
+        """Edge filter: only the branches consistent with the valuation of {'foreign', 'notnone'} (unlisted predicates are free)."""
         def ok(a: pf.Node, b: pf.Node, lab: str) -> bool:
-            c = tests.get(a.id)
-            if c is None or c[0] not in val:
+            c = self.tests.get(a.id)
+            if c is None or c[0] not in val or lab not in ('T', 'F'):
                 return True
-            true_lab = c[1]
-            return (lab == true_lab) == val[c[0]] if lab in ('T', 'F') else True
+            return (lab == c[1]) == val[c[0]]
         return ok
 
-    other_adds = [c for c in pf.calls_in(fn) if isinstance(c.func, ast.Attribute) and c.func.attr in ('add', 'update') and _is_attr(c.func.value, 'self', DEPS)]
-    cons = f'{where}::self.{DEPS}.add({S})'
-    if not any(is_add(n) for n in g.nodes):
-        ctx.need(not other_adds, f'{where}: `self.{DEPS}` is written in an unrecognised way')
-        ctx.bad('R3', cons, f'the producing job `{S} = r.source()` is never added to `self.{DEPS}`: a job that consumes another job\'s resource is not ordered after it '
-                            f'(b reads a.ofile, created in the order b, a => b is numbered and run first)', m.path, srcs[0].lineno)
-        p = None
-    else:
-        p = g.path_avoiding(SRC, lambda n: n is g.exit, is_add, edge_ok=under({'foreign': True, 'notnone': True}))
-    if not any(is_add(n) for n in g.nodes):
-        pass
-    elif p is not None:
-        ctx.bad('R3', cons, f'with a foreign, non-None source there is a path to the normal exit that skips `self.{DEPS}.add({S})` '
-                            f'(via `{p[-2].text() if len(p) > 1 else "?"}`): the consumer is not ordered after the producer', m.path, srcs[0].lineno)
-    else:
-        ctx.ok('R3', cons, {'tests': sorted(f'{k}@{lab}' for k, lab in tests.values())})
-    wrong = None
-    for val, why in (({'foreign': False}, f'`{S}` is the job itself (a self-cycle: every job that mentions its own resource is rejected as cyclic)'),
-                     ({'notnone': False}, f'`{S}` is None (an input file has no producing job)')):
-        q = g.path_avoiding(SRC, is_add, lambda n: False, edge_ok=under(val))
-        if q is not None:
-            wrong = why
-    ctx.check(wrong is None, 'R3', cons + '::only foreign producers', f'`self.{DEPS}.add({S})` is reachable when {wrong}', m.path, srcs[0].lineno)
-    return S
+    def effect(self, ctx: Ctx, rule: str, what: str, is_eff: Callable[[pf.Node], bool], required: Dict[str, bool],
+               forbidden: List[Tuple[Dict[str, bool], str]], missing_msg: str, skip_msg: str) -> None:
+        """`what` must be executed on every path SRC -> normal exit consistent with `required`, and must be unreachable under each `forbidden` valuation."""
+        g, SRC = self.g, self.SRC
+        cons = f'{self.where}::{what}'
+        line = self.src_stmt.lineno
+        if not any(is_eff(n) for n in g.nodes):
+            ctx.bad(rule, cons, missing_msg, self.m.path, line)
+        else:
+            p = g.path_avoiding(SRC, lambda n: n is g.exit, is_eff, edge_ok=self.under(required))
+            if p is not None:
+                ctx.bad(rule, cons, f'{skip_msg} (a path to the normal exit via `{p[-2].text() if len(p) > 1 else "?"}` skips `{what}`)', self.m.path, line)
+            else:
+                ctx.ok(rule, cons, {'tests': sorted(f'{k}@{lab}' for k, lab in self.tests.values())})
+        wrong = None
+        for val, why in forbidden:
+            if g.path_avoiding(SRC, is_eff, lambda n: False, edge_ok=self.under(val)) is not None:
+                wrong = why
+        ctx.check(wrong is None, rule, cons + '::only when required', f'`{what}` is reachable when {wrong}', self.m.path, line)
+
+
+def call_pred(recv: Callable[[ast.AST], bool], meth: str, arg: str) -> Callable[[pf.Node], bool]:
+    """CFG-node predicate: the node evaluates `<recv>.<meth>(<arg>)`."""
+    def pred(n: pf.Node) -> bool:
+        for c in pf.node_calls(n):
+            if isinstance(c.func, ast.Attribute) and c.func.attr == meth and recv(c.func.value) and len(c.args) == 1 \
+                    and isinstance(c.args[0], ast.Name) and c.args[0].id == arg and not c.keywords:
+                return True
+        return False
+    return pred
+
+
+def _dep_site(ctx: Ctx, m: pf.Module, qual: str) -> None:
+    site = RecordingSite(ctx, m, qual)
+    S = site.S
+    is_add = call_pred(lambda e: _is_attr(e, 'self', DEPS), 'add', S)
+    if not any(is_add(n) for n in site.g.nodes):
+        other = [c for c in pf.calls_in(site.fn) if isinstance(c.func, ast.Attribute) and c.func.attr in ('add', 'update') and _is_attr(c.func.value, 'self', DEPS)]
+        ctx.need(not other, f'{site.where}: `self.{DEPS}` is written in an unrecognised way')
+    site.effect(ctx, 'R3', f'self.{DEPS}.add({S})', is_add, {'foreign': True, 'notnone': True},
+                [({'foreign': False}, f'`{S}` is the job itself (a self-cycle: every job that mentions its own resource is rejected as cyclic)'),
+                 ({'notnone': False}, f'`{S}` is None (an input file has no producing job)')],
+                f'the producing job `{S} = {site.R}.source()` is never added to `self.{DEPS}`: a job that consumes another job\'s resource is not ordered after it '
+                f'(b reads a.ofile, created in the order b, a => b is numbered and run first)',
+                f'with a foreign, non-None source the consumer is not always ordered after the producer')
 
 
 def _r3(ctx: Ctx) -> None:
